@@ -439,7 +439,8 @@ def extra_c07_bounded(prop, tier, seed):
         {'check': 'b64 literals: every string of <= %d chars over {A,Q,J,g,+,/,-,_,=} and every sequence of <= 3 four-char '
                   'blocks + 7 tails through the real base64_decode == RFC 4648 decoder (one alphabet per literal, optional '
                   'canonical trailing padding, zero pad bits); h literals: every string of <= 4 chars over {0,9,a,f,A,F,g,space}'
-                  % (6 if tier == 'thorough' else 5), 'bound': 'see check', 'cases': out.get('tried'), 'found': out.get('found')}]}
+                  % (6 if tier == 'thorough' else 5), 'bound': 'see check', 'cases': out.get('tried'), 'found': out.get('found')},
+        {'check': 'integer literals at every syntactic position (type, range bounds, .size/.lt argument, tag number, occurrence bounds, member key): 288 boundary literals in dec/0x/0X/0b/0B/leading-zero spellings, +/-: stored value == RFC value, unrepresentable => parse error', 'bound': '288 literals x up to 8 positions', 'found': out.get('found')}]}
     if out.get('found'):
         res['violations'].append({
             'unit': 'U2b', 'label': 'literal:%s-value-equals-rfc' % out['witness']['kind'], 'fn': 'unescape_text / base64_decode / hex_decode',
@@ -563,10 +564,10 @@ KANI_U1_PULL = [
 KANI_U2 = [
     {'name': 'pest_bridge::verif_kani::u64_hex', 'kind': 'bounded', 'bound': '"0x" + <= 17 hex digits (complete in value: every u64, first overflowing length)',
      'label': 'parse_u64_lit:equals-rfc-value:hex', 'functions': ['parse_u64_lit'], 'file': 'src/pest_bridge.rs',
-     'clause': 'grammar_uint(s) ==> parse_u64_lit(s) == spec_uint(s)', 'counted': True},
+     'clause': 'grammar_uint(s) ==> parse_u64_lit(s) == spec_uint(s)', 'counted': True, 'playback': 'ascii_text', 'replay_unit': 'u2'},
     {'name': 'pest_bridge::verif_kani::u64_decimal_20', 'kind': 'bounded', 'bound': '<= 20 decimal digits (every u64 value and 20-digit overflow)',
      'label': 'parse_u64_lit:equals-rfc-value:decimal', 'functions': ['parse_u64_lit'], 'file': 'src/pest_bridge.rs',
-     'clause': 'grammar_uint(s) ==> parse_u64_lit(s) == spec_uint(s)', 'counted': True},
+     'clause': 'grammar_uint(s) ==> parse_u64_lit(s) == spec_uint(s)', 'counted': True, 'playback': 'ascii_text', 'replay_unit': 'u2'},
     {'name': 'pest_bridge::verif_kani::u64_bin_34', 'kind': 'bounded', 'bound': '"0b" + <= 32 binary digits', 'tiers': ('quick',),
      'label': 'parse_u64_lit:equals-rfc-value:binary', 'functions': ['parse_u64_lit'], 'file': 'src/pest_bridge.rs',
      'clause': 'grammar_uint(s) ==> parse_u64_lit(s) == spec_uint(s)'},
@@ -578,10 +579,10 @@ KANI_U2 = [
      'clause': 'grammar_uint(s) ==> parse_u64_lit(s) == spec_uint(s)', 'timeout': 3000},
     {'name': 'pest_bridge::verif_kani::uint_lit', 'kind': 'complete',
      'label': 'parse_uint_lit:usize-boundary', 'functions': ['parse_uint_lit'], 'file': 'src/pest_bridge.rs',
-     'clause': 'parse_uint_lit(s) == spec_uint(s) if it fits usize else None, against the CONTRACT of parse_u64_lit (stub_verified), every magnitude 0..=u64::MAX'},
+     'clause': 'parse_uint_lit(s) == spec_uint(s) if it fits usize else None, against the CONTRACT of parse_u64_lit (stub_verified), every magnitude 0..=u64::MAX', 'playback': 'ascii_text', 'replay_unit': 'u2'},
     {'name': 'pest_bridge::verif_kani::int_lit', 'kind': 'complete',
      'label': 'parse_int_lit:sign-and-isize-boundary', 'functions': ['parse_int_lit'], 'file': 'src/pest_bridge.rs',
-     'clause': 'parse_int_lit(["-"]s) == (-)spec_uint(s) if it fits isize else None (-2^63 accepted, -(2^63+1) rejected), against the CONTRACT of parse_u64_lit, every magnitude and sign'},
+     'clause': 'parse_int_lit(["-"]s) == (-)spec_uint(s) if it fits isize else None (-2^63 accepted, -(2^63+1) rejected), against the CONTRACT of parse_u64_lit, every magnitude and sign', 'playback': 'ascii_text', 'replay_unit': 'u2'},
 ]
 
 
